@@ -423,6 +423,7 @@ std::string check_parse(const uint8_t *bytes, size_t n, ParseFacts *facts, int r
         char tmp[300];
         {
             ST::conversion_result cr;
+            verif::pre_errno();
             double d = s.to_double(cr);
             if (!ref::same_double(d, pd.value) || cr.ok() != pd.ok(n) || cr.full_match() != pd.full_match(n)) {
                 snprintf(tmp, sizeof tmp, "to_double(result) gives %.17g (bits %016llX) ok=%d full_match=%d; strtod returns %.17g (bits %016llX) consuming %zu of %zu bytes, so ok=%d full_match=%d",
@@ -434,6 +435,7 @@ std::string check_parse(const uint8_t *bytes, size_t n, ParseFacts *facts, int r
         }
         {
             ST::conversion_result cr;
+            verif::pre_errno();
             float f = s.to_float(cr);
             if (!ref::same_float(f, pf.value) || cr.ok() != pf.ok(n) || cr.full_match() != pf.full_match(n)) {
                 snprintf(tmp, sizeof tmp, "to_float(result) gives %.9g (bits %08X) ok=%d full_match=%d; strtof returns %.9g (bits %08X) consuming %zu of %zu bytes, so ok=%d full_match=%d",
